@@ -116,7 +116,7 @@ func (c *Ctx) resolveNames() {
 						if en, ok := p.Elem().(*types.Named); ok {
 							if est, ok := en.Underlying().(*types.Struct); ok {
 								for j := 0; j < est.NumFields(); j++ {
-									if _, isChan := est.Field(j).Type().Underlying().(*types.Chan); isChan {
+									if _, isChan := est.Field(j).Type().Underlying().(*types.Chan); isChan || types.TypeString(est.Field(j).Type(), nil) == "sync.WaitGroup" {
 										hits = append(hits, hit{append(append([]string{}, chain...), f.Name()), s, f, en})
 									}
 								}
@@ -156,8 +156,8 @@ func (c *Ctx) resolveNames() {
 		for j := 0; j < est.NumFields(); j++ {
 			f := est.Field(j)
 			switch {
-			case func() bool { _, ok := f.Type().Underlying().(*types.Chan); return ok }():
-				setField(f, klCanon, "lock")
+			case func() bool { _, ok := f.Type().Underlying().(*types.Chan); return ok }(), types.TypeString(f.Type(), nil) == "sync.WaitGroup":
+				setField(f, klCanon, "lock") // the completion signal of the entry: a channel closed once, or a WaitGroup armed with Add(1)
 			case types.TypeString(f.Type(), nil) == "error":
 				setField(f, klCanon, "err")
 			default:
